@@ -39,6 +39,7 @@ Types(d) ==
          \cup {Struct(<<>>)}
          \cup {Struct(<<F("a", t)>>) : t \in S}
          \cup {Struct(<<F("a", t), F("b", Leaf("int"))>>) : t \in S}
+         \cup {Struct(<<F("a", Leaf("bool")), F("b", t)>>) : t \in {x \in S : x.k \in {"struct", "enum", "maybe", "array", "map"}}}
          \cup {Enum(<<"a">>), Enum(<<"a", "b">>)}
 
 (* --- printer -------------------------------------------------------------- *)
@@ -80,7 +81,8 @@ D1(d) == LET S == Types(d) IN
   {Desc("a.b", <<TaDecl, MType("Tb", t), MMethod("M", Struct(<<>>), Struct(<<>>))>>) : t \in S}
   \cup {Desc("a.b", <<TaDecl, MMethod("M", Struct(<<F("x", t)>>), Struct(<<>>))>>) : t \in S}
   \cup {Desc("a.b", <<TaDecl, MMethod("M", Struct(<<>>), Struct(<<F("x", t), F("y", Leaf("bool"))>>))>>) : t \in S}
-  \cup {Desc("a.b", <<TaDecl, MMethod("M", Struct(<<>>), Struct(<<>>)), MError("E", <<Struct(<<F("x", t)>>)>>)>>) : t \in S}
+  \* ... and not only as the first field of its list
+  \cup {Desc("a.b", <<TaDecl, MMethod("M", Struct(<<>>), Struct(<<>>)), MError("E", <<Struct(<<F("w", Leaf("string")), F("x", t), F("z", Leaf("int"))>>)>>)>>) : t \in S}
 (* D2: member orders, interface names, typeless errors *)
 D2 == LET Ms == {MType("T", Leaf("int")), MMethod("M", Struct(<<F("a", Leaf("int"))>>), Struct(<<>>)),
                  MMethod("N", Struct(<<>>), Struct(<<F("r", Alias("T"))>>)), MError("E", <<>>), MError("F", <<Struct(<<F("c", Leaf("string"))>>)>>)} IN
